@@ -18,7 +18,7 @@ class Contract(object):
     def __init__(self, fid, requires='True', ensures=(), raises=None, may_raise=None,
                  modifies=None, on_raise=None, transparent=False, exact_raises=True,
                  props=(), note='', invariants=None, bounded=None, assume_pre=(),
-                 lemmas=None, decreases=None, args_domain=None, classify=None, ghosts=()):
+                 lemmas=None, decreases=None, args_domain=None, classify=None, ghosts=(), **extra):
         self.fid = fid
         self.requires = requires            # python expression over the parameters
         self.ensures = list(ensures)        # expressions over parameters, `result`, old(...)
@@ -39,6 +39,8 @@ class Contract(object):
         self.classify = classify            # witness -> class label (for known findings)
         self.ghosts = tuple(ghosts)         # logical variables of a lemma contract (fid has a #tag)
         self.base_fid = fid.split('#')[0]
+        for k, v in extra.items():       # heap-mode options: types, inv, pure, inline, result_types, ...
+            setattr(self, k, v)
         REGISTRY[fid] = self
 
 
